@@ -197,13 +197,16 @@ PLACEHOLDER_TAG = {'create_key_pair': W.TAG.PRIVATE_KEY_UNIQUE_IDENTIFIER.value}
 
 
 def placeholder_family():
-    """(item names, version): setter [, activate] , reader  and  setter, setter, reader."""
+    """(item names, version): setter [, activate | failing item] , reader  and  setter, setter, reader."""
     out = []
     for version, readers in (((1, 2), READERS_1X), ((2, 0), READERS_20)):
         for s in SETTERS:
             for r in readers:
                 out.append(((s, r), version))
                 out.append(((s, 'activate_ph', r), version))
+                # a failing item between setter and reader (reached under Continue only): the
+                # placeholder must survive another item's failure
+                out.append(((s, 'get_missing', r), version))
                 for s2 in SETTERS:
                     if s2 != s:
                         out.append(((s2, s, r), version))
